@@ -486,17 +486,27 @@ def c15(tier, replay_file=None):
         report(res, bad, kn, case_by_id, result_by_id, "E3-save-reload")
         if judged != len(cases) and not res.tool_errors:
             res.tool_errors.append("judged %d of %d cases" % (judged, len(cases)))
+        e2e = {}
+        if not res.tool_errors:
+            fancy = [c for c in cases if "fancy" in c]
+            keyc = [{"id": c["id"], "fancy": {"mappings": [{"from": m["from"], "to": m["to"], "absorbing": m["absorbing"],
+                                                           "repeat": ({"Special": {"keys": m["repeat"]["keys"], "delay_ms": m["repeat"]["delay"], "interval_ms": m["repeat"]["interval"]}}
+                                                                      if m["repeat"]["kind"] == "Special" else m["repeat"]["kind"])} for m in c["layout"]]}}
+                    for c in cases if str(c["id"]).startswith("key-")]
+            want = 60 if tier == "quick" else 1500
+            pick = fancy[::max(1, len(fancy) // want)][:want] + [c for c in fancy if not str(c["id"]).startswith("prog-")] + keyc[::max(1, len(keyc) // (want // 2))]
+            e2e = c15_e2e(res, exe, wd, pick)
         res.coverage = {
             "programs": judged, "disagreements_checked": judged,
             "samples": [cases[0] if len(cases) < 3 else cases[2], cases[nbasic + 3], cases[-1]],
-            "bounded_basic_layouts": nbasic, "key_codes": len(keys), "converted_programs": nf, "nontrivial_layouts": nontriv,
+            "bounded_basic_layouts": nbasic, "key_codes": len(keys), "converted_programs": nf, "nontrivial_layouts": nontriv, **e2e,
             "rule": "every basic layout of SaveGen.tla's bounded family (0-%d mappings; triggers of 1-4 keys; outputs of 0-3 keys; Normal/Disabled/Special with chords of 0-2 keys and extreme "
                     "and negative numbers; absorbing lists), one two-mapping layout per key code the tool knows (the key as trigger, output, chord key and modifier), and every "
                     "layout the real converter produces for the accepted programs of the C13 family, the built-ins and the README examples; each is serialised as "
                     "write_layout_to_global_config does (serde_json::to_writer_pretty of the Layout) and read back with load_layout_from_file; TLC compares." % (2 if tier == "quick" else 3),
             "exhaustive": True,
         }
-        res.assumptions = ["the save path is serde_json::to_writer_pretty on the Layout value, as in write_layout_to_global_config (which writes to a fixed path under /etc and is not called)"]
+        res.assumptions = ["in-process cases reproduce the save path as serde_json::to_writer_pretty on the Layout value; the end-to-end cases run the real write_layout_to_global_config (needs `unshare -m`; skipped with a note otherwise)"]
         if not res.violations and not res.tool_errors and nontriv < 100:
             res.tool_errors.append("vacuous run: only %d non-trivial layouts" % nontriv)
     except ToolError as e:
@@ -770,6 +780,69 @@ def c16(tier, replay_file=None):
     return res.finish()
 
 
+def build_real_binary():
+    """the repository's own binary (guard off), built from REPO's current working tree into a target directory of ours"""
+    import subprocess
+    tdir = os.path.join(HARNESS, "target" + repo_tag(), "realbin")
+    p = subprocess.run(["cargo", "build", "--offline", "--manifest-path", os.path.join(REPO, "Cargo.toml"), "--target-dir", tdir],
+                       stdout=subprocess.PIPE, stderr=subprocess.STDOUT, text=True, env=dict(os.environ, CARGO_NET_OFFLINE="true"))
+    binp = os.path.join(tdir, "debug", "totalmapper")
+    if p.returncode != 0 or not os.path.exists(binp):
+        raise ToolError("building the real binary failed: " + p.stdout[-1500:])
+    return binp
+
+
+def namespaces_available():
+    import subprocess
+    probe = subprocess.run(["unshare", "-m", "true"], stdout=subprocess.PIPE, stderr=subprocess.PIPE)
+    return probe.returncode == 0, probe.stderr.decode()[:200]
+
+
+def c15_e2e(res, exe, wd, fancy_cases):
+    """The real save path: `totalmapper add_systemd_service --layout-file F` in a mount namespace whose /etc is a scratch directory writes
+    /etc/totalmapper.json with the real write_layout_to_global_config (its later steps - users, groups, udev - fail there and do not matter);
+    the file is then read with the real load_layout_from_file and compared with what the loader makes of F itself."""
+    import subprocess, shutil
+    ok, why = namespaces_available()
+    if not ok:
+        res.notes.append("end-to-end save skipped: cannot create a mount namespace here (%s)" % why)
+        return {"e2e_saved": 0}
+    t0 = time.time()
+    binp = build_real_binary()
+    d = os.path.join(wd, "save")
+    shutil.rmtree(d, ignore_errors=True)
+    os.makedirs(os.path.join(d, "etc"))
+    inputs, texts = [], []
+    for c in fancy_cases:
+        ip = os.path.join(d, "in.json")
+        json.dump(c["fancy"], open(ip, "w"))
+        sp = os.path.join(d, "etc", "totalmapper.json")
+        if os.path.exists(sp):
+            os.remove(sp)
+        subprocess.run(["unshare", "-m", "sh", "-c", "mount --bind %s/etc /etc && exec %s add_systemd_service --layout-file %s" % (d, binp, ip)],
+                       stdout=subprocess.PIPE, stderr=subprocess.PIPE, timeout=60)
+        inputs.append({"id": c["id"], "json": c["fancy"]})
+        texts.append({"id": c["id"], "kind": "text", "text": open(sp).read() if os.path.exists(sp) else ""})
+    shutil.rmtree(os.path.join(d, "etc"), ignore_errors=True)
+    ipath, tpath = os.path.join(wd, "e2e_inputs.ndjson"), os.path.join(wd, "e2e_saved.ndjson")
+    write_ndjson(ipath, inputs)
+    write_ndjson(tpath, texts)
+    orig = [json.loads(l) for l in run_tmv(exe, ["load", ipath]).splitlines() if l.strip()]
+    back = [json.loads(l) for l in run_tmv(exe, ["loadtext", tpath]).splitlines() if l.strip()]
+    rows = []
+    for o, b, t in zip(orig, back, texts):
+        have = o["r1"]["o"] == "ok"
+        rows.append({"id": "e2e-%s" % o["id"], "have": have, "orig": o["r1"]["mappings"], "saved": t["text"] != "", "o": b["o"], "msg": b["msg"], "mappings": b["mappings"]})
+    rp = os.path.join(wd, "e2e_save_results.ndjson")
+    write_ndjson(rp, rows)
+    log("[record] real add_systemd_service in a mount namespace saved %d layouts, reloaded with the real loader, %.1fs" % (len(rows), time.time() - t0))
+    files, n = split_file(rp, PROCS, wd, "e2esave")
+    judged, nontriv, bad, kn, _ = judge(res, wd, "SaveCheck", files, known_ids("C15"))
+    report(res, bad, kn, {"e2e-%s" % c["id"]: c for c in fancy_cases}, {r["id"]: r for r in rows}, "E3-save-reload-e2e")
+    return {"e2e_saved": judged, "e2e_saved_nontrivial": nontriv,
+            "e2e_how": "the real binary's add_systemd_service under unshare -m with /etc bound to a scratch directory: the file written by the real write_layout_to_global_config is reloaded by the real loader"}
+
+
 def select_e2e(cases, tier):
     want = 60 if tier == "quick" else 1200
     # a real system lists every device once: lists that repeat an entry kind (= the same sysfs path) stay with the extractor-level check
@@ -789,12 +862,7 @@ def c16_e2e(res, wd, cases, replay_file=None):
         res.notes.append("end-to-end selection skipped: cannot create a mount namespace here (%s)" % probe.stderr.decode()[:200])
         return {"e2e_cases": 0, "e2e_how": "skipped (no mount namespace available)"}
     t0 = time.time()
-    tdir = os.path.join(HARNESS, "target" + repo_tag(), "realbin")
-    p = subprocess.run(["cargo", "build", "--offline", "--manifest-path", os.path.join(REPO, "Cargo.toml"), "--target-dir", tdir],
-                       stdout=subprocess.PIPE, stderr=subprocess.STDOUT, text=True, env=dict(os.environ, CARGO_NET_OFFLINE="true"))
-    binp = os.path.join(tdir, "debug", "totalmapper")
-    if p.returncode != 0 or not os.path.exists(binp):
-        raise ToolError("building the real binary failed: " + p.stdout[-1500:])
+    binp = build_real_binary()
     rows = []
     for c in cases:
         d = os.path.join(wd, "e2e", str(c["id"]))
